@@ -139,10 +139,13 @@ class IdProp(PropBase):
     def call(self, case):
         from y0.algorithm.identify import identify_outcomes
         g = case["g"]
-        gr = GG.to_y0(g)
-        before = GG.snapshot(gr)
         X = {GG.V(v) for v in case["X"]}
         Y = {GG.V(v) for v in case["Y"]}
+        def warm(partial, present):   # the same query on the graph before its last edits
+            if X & present and Y & present:
+                identify_outcomes(partial, X & present, Y & present)
+        gr = GG.to_y0(g, warm=warm)
+        before = GG.snapshot(gr)
         Xc, Yc = set(X), set(Y)
         with TopoRecorder() as rec:
             try:
